@@ -334,7 +334,13 @@ func (self Value) getByPath(pathes ...Path) (Value, []int) {
 				if err != nil {
 					return errValue(meta.ErrRead, "GetByPath: read field length failed.", err), address
 				}
+				if Len < 0 || Len > len(p.Buf)-p.Read {
+					return errValue(meta.ErrRead, "GetByPath: field length exceeds the buffer.", nil), address
+				}
 				messageLen += Len
+				// repeated and map fields are scanned up to the end of the buffer: bound them by the end
+				// of this message, or they take in same-numbered fields of the enclosing message
+				p.Buf = p.Buf[:p.Read+Len]
 			}
 
 			fd := desc.Message().ByNumber(id)
@@ -358,7 +364,13 @@ func (self Value) getByPath(pathes ...Path) (Value, []int) {
 				if err != nil {
 					return errValue(meta.ErrRead, "GetByPath: read field length failed.", err), address
 				}
+				if Len < 0 || Len > len(p.Buf)-p.Read {
+					return errValue(meta.ErrRead, "GetByPath: field length exceeds the buffer.", nil), address
+				}
 				messageLen += Len
+				// repeated and map fields are scanned up to the end of the buffer: bound them by the end
+				// of this message, or they take in same-numbered fields of the enclosing message
+				p.Buf = p.Buf[:p.Read+Len]
 			}
 
 			fd := desc.Message().ByName(name)
